@@ -19,11 +19,15 @@ pub struct Limits {
     pub adequacy: bool,
     /// return the BFS-shortest history of every state (used by the fault engine)
     pub collect_histories: bool,
+    /// property that owns an adequacy finding in this run
+    pub adequacy_prop: &'static str,
+    /// how many further steps the two histories of a merged state are compared for (>= 1)
+    pub adequacy_depth: usize,
 }
 
 impl Default for Limits {
     fn default() -> Self {
-        Limits { max_states: 2_000_000, max_secs: 1500.0, max_depth: usize::MAX, adequacy: false, collect_histories: false }
+        Limits { max_states: 2_000_000, max_secs: 1500.0, max_depth: usize::MAX, adequacy: false, collect_histories: false, adequacy_prop: "C17", adequacy_depth: 1 }
     }
 }
 
@@ -87,7 +91,7 @@ fn fnv(bytes: &[u8]) -> u64 {
 
 struct StateOut {
     findings: Vec<(Finding, Option<Op>)>,
-    succs: Vec<(Vec<u8>, Op, Ret)>,
+    succs: Vec<(Vec<u8>, Op, Ret, Vec<Ent>)>,
     counters: Counters,
     transitions: u64,
     executions: u64,
@@ -121,7 +125,7 @@ pub fn explore(driver: &dyn Driver, props: &BTreeSet<&'static str>, want: &Wants
     canon_of.push(c0);
 
     let mut viol: BTreeMap<(String, String, String), Violation> = BTreeMap::new();
-    let mut fanout: Vec<Vec<(Op, Ret, Vec<u8>)>> = vec![];
+    let mut fanout: Vec<Vec<(Op, Ret, Vec<u8>, Vec<Ent>)>> = vec![];
     let mut dups: Vec<(u32, Op, u32)> = vec![];
     let mut frontier: Vec<u32> = vec![0];
     let mut depth = 0usize;
@@ -168,6 +172,7 @@ pub fn explore(driver: &dyn Driver, props: &BTreeSet<&'static str>, want: &Wants
                         let t = driver.trans(hist, *op, want);
                         o.executions += 1;
                         o.transitions += 1;
+                        o.iter_runs += t.iter_runs;
                         if let Some(e) = &t.exec.replay_error {
                             o.errors.push(format!("replay of {:?} failed: {}", hist, e));
                             continue;
@@ -182,7 +187,7 @@ pub fn explore(driver: &dyn Driver, props: &BTreeSet<&'static str>, want: &Wants
                                 key.extend_from_slice(format!("{:?}{:?}", op, ret).as_bytes());
                                 key.extend_from_slice(&pc);
                                 o.digest = o.digest.wrapping_add(fnv(&key));
-                                o.succs.push((pc, *op, ret.clone()));
+                                o.succs.push((pc, *op, ret.clone(), t.cb_log.clone()));
                             }
                         }
                     }
@@ -220,9 +225,9 @@ pub fn explore(driver: &dyn Driver, props: &BTreeSet<&'static str>, want: &Wants
                     if fanout.len() <= *id as usize {
                         fanout.resize(*id as usize + 1, vec![]);
                     }
-                    fanout[*id as usize] = o.succs.iter().map(|(pc, op, ret)| (*op, ret.clone(), pc.clone())).collect();
+                    fanout[*id as usize] = o.succs.iter().map(|(pc, op, ret, cb)| (*op, ret.clone(), pc.clone(), cb.clone())).collect();
                 }
-                for (pc, op, _ret) in o.succs {
+                for (pc, op, _ret, _cb) in o.succs {
                     match seen.get(&pc) {
                         None => {
                             let nid = nodes.len() as u32;
@@ -231,9 +236,10 @@ pub fn explore(driver: &dyn Driver, props: &BTreeSet<&'static str>, want: &Wants
                             nodes.push(Node { parent: *id, op, depth: depth as u32 + 1 });
                         }
                         Some(tid) => {
-                            if limits.adequacy && *tid != *id {
+                            if limits.adequacy {
+                                // self-loops count too: [h, op] is a different history of the same state
                                 let n = &nodes[*tid as usize];
-                                if !(n.parent == *id && n.op == op) {
+                                if !(*tid != 0 && n.parent == *id && n.op == op) {
                                     dups.push((*id, op, *tid));
                                 }
                             }
@@ -265,25 +271,64 @@ pub fn explore(driver: &dyn Driver, props: &BTreeSet<&'static str>, want: &Wants
                     None => return (0, None),
                 };
                 let mut steps = 0;
-                for (op2, ret2, pc2) in fo {
+                for (op2, ret2, pc2, cb2) in fo {
                     let t = driver.trans(&h, *op2, want);
                     steps += 1;
-                    let same = t.ret.as_ref() == Some(ret2) && t.post.as_ref().map(|p| p.canon()).as_ref() == Some(pc2);
+                    let same = t.ret.as_ref() == Some(ret2) && t.post.as_ref().map(|p| p.canon()).as_ref() == Some(pc2) && t.cb_log == *cb2;
                     if !same {
                         let f = Finding::new(
-                            "C17",
+                            limits.adequacy_prop,
                             "equal_states_have_equal_futures",
                             format!("{:?}/{}", cfg.kind, oracle::op_name(op2)),
                             format!(
-                                "two histories reach the same abstract state but {:?} then behaves differently: via {:?} it returns {:?}, via {:?} it returns {:?}",
+                                "two histories reach the same abstract state but {:?} then behaves differently: via {:?} it returns {:?} (callback saw {:?}), via {:?} it returns {:?} (callback saw {:?})",
                                 op2,
                                 h,
                                 t.ret,
+                                t.cb_log,
                                 history(&nodes, *tid),
-                                ret2
+                                Some(ret2),
+                                cb2
                             ),
                         );
                         return (steps, Some((f, h.clone(), *op2)));
+                    }
+                }
+                // deeper levels: both histories are executed side by side
+                if limits.adequacy_depth > 1 {
+                    let hb = history(&nodes, *tid);
+                    let mut level: Vec<(Vec<Op>, Vec<Op>)> = muts.iter().map(|m| { let mut a = h.clone(); a.push(*m); let mut b = hb.clone(); b.push(*m); (a, b) }).collect();
+                    for _d in 1..limits.adequacy_depth {
+                        let mut next = vec![];
+                        for (a, b) in &level {
+                            for op2 in &muts {
+                                let ta = driver.trans(a, *op2, want);
+                                let tb = driver.trans(b, *op2, want);
+                                steps += 2;
+                                let same = ta.ret == tb.ret && ta.cb_log == tb.cb_log && ta.post.as_ref().map(|p| p.canon()) == tb.post.as_ref().map(|p| p.canon());
+                                if !same {
+                                    let f = Finding::new(
+                                        limits.adequacy_prop,
+                                        "equal_states_have_equal_futures",
+                                        format!("{:?}/{}", cfg.kind, oracle::op_name(op2)),
+                                        format!(
+                                            "two histories reach the same abstract state but {:?} then behaves differently: after {:?} it returns {:?} (callback saw {:?}), after {:?} it returns {:?} (callback saw {:?})",
+                                            op2, a, ta.ret, ta.cb_log, b, tb.ret, tb.cb_log
+                                        ),
+                                    );
+                                    return (steps, Some((f, a.clone(), *op2)));
+                                }
+                                if matches!(ta.ret, Some(Ret::Panic(_))) {
+                                    continue;
+                                }
+                                let mut a2 = a.clone();
+                                a2.push(*op2);
+                                let mut b2 = b.clone();
+                                b2.push(*op2);
+                                next.push((a2, b2));
+                            }
+                        }
+                        level = next;
                     }
                 }
                 (steps, None)
